@@ -149,7 +149,7 @@ pub fn run_chunk(prop: &dyn Prop, cx_base: &Cx, a: &ChunkArgs) -> i32 {
                 failed += 1;
                 let c = fail_sigs.entry(sig.clone()).or_default();
                 *c += 1;
-                if *c <= 3 && failures.len() < 40 {
+                if *c <= 3 && failures.len() < 60 {
                     if r.render.is_none() && !space.exhaustive {
                         // re-run with rendering for the report
                         let cx2 = cx.with_render(true);
@@ -170,7 +170,7 @@ pub fn run_chunk(prop: &dyn Prop, cx_base: &Cx, a: &ChunkArgs) -> i32 {
                     }
                     failures.push(json!({
                         "space": space.name, "index": index, "signature": sig, "message": msg,
-                        "tape": used, "direct": r.direct, "render": r.render,
+                        "tape": used, "direct": r.direct, "render": r.render, "classes": r.classes,
                     }));
                 }
             }
